@@ -227,7 +227,7 @@ def twotrees(m, n, opt, mk, v, h, nf, **kw):
     for pre in ("a", "b"):
         ip = [kw["%sip%d" % (pre, i)] for i in range(1, m)]
         lp = [kw["%slp%d" % (pre, j)] for j in range(1, n + 1)]
-        nodes, leaves = build_e1(m, n, ip, lp, labels=["R", "X", "X", "Y"][:m], pos=["P", "P", "Q", "P", "Q"][:n])
+        nodes, leaves = build_e1(m, n, ip, lp, labels=["R", "X", "X", "Y"][:m], pos=["P", "P", "Q", "P", "Q", "P", "Q"][:n])
         grammar.extract(nodes[0], g, lex)
     return check_grammar(g, opt, _markov(mk, v, h, nf), ["R"])
 
@@ -242,7 +242,7 @@ def fromtree(m, n, opt, mk, v, h, nf, **kw):
     ip, lp = e1_get(kw, m, n)
     g, lex = {}, {}
     for lab in ("R", "R2"):
-        nodes, leaves = build_e1(m, n, ip, lp, labels=[lab, "X", "X", "Y"][:m], pos=["P", "P", "Q", "P", "Q"][:n])
+        nodes, leaves = build_e1(m, n, ip, lp, labels=[lab, "X", "X", "Y"][:m], pos=["P", "P", "Q", "P", "Q", "P", "Q"][:n])
         grammar.extract(nodes[0], g, lex)
     return check_grammar(g, opt, _markov(mk, v, h, nf), ["R", "R2"])
 
